@@ -42,7 +42,7 @@ def coq_adapter(a):
 def coq_comp(c, comps=None):
     def chain_of(i):
         ch = list(i["chain"])
-        if comps is not None and i["src"][1] in comps[i["src"][0]].get("shared_out", []):
+        if comps is not None and i["src"][1] in comps[i["src"][0]].get("shared_out", []) and not i.get("own"):
             sd = dict((o, d) for o, d in comps[i["src"][0]].get("shared_delay", []))
             # the shared adapter at the source output: pass-through, or ONE DelayFixed serving all consumers
             ch = ch + ([["fixed", sd[i["src"][1]]]] if i["src"][1] in sd else [["pass"]])
@@ -876,3 +876,27 @@ def gen_calendar_ring(rng):
     order = list(range(n))
     rng.shuffle(order)
     return {"comps": permute(comps, order), "end": start + rng.choice([33, 40, 65]) * DAY}
+
+
+def gen_branching(rng):
+    """One output with several branches: a plain adapter that fans out to 2-3 consumers (shared adapter) next to
+    branches of their own that start with a time interpolation / integration adapter (a no-branch adapter) or a
+    delay adapter, linked in a random order: legal branching must be accepted whatever the link order."""
+    unit = rng.choice(UNITS)
+    sp = unit * rng.choice([1, 1, 2])
+    comps = [{"kind": "T", "start": 0, "steps": [sp], "initpull": False, "nout": 1, "inputs": [], "shared_out": [0]}]
+    for _ in range(rng.choice([2, 2, 3])):
+        comps.append({"kind": "T", "start": 0, "steps": [sp * rng.choice([1, 2, 3])], "initpull": rng.random() < 0.3, "nout": 0,
+                      "inputs": [{"src": [0, 0], "chain": [["pass"]] if rng.random() < 0.3 else []}]})
+    for _ in range(rng.choice([1, 1, 2])):
+        ch = rng.choice([[["buf", "linear"]], [["buf", "next"]], [["pass"], ["buf", "prev"]], [["fixed", sp]], [["buf", "step"], ["pass"]]])
+        comps.append({"kind": "T", "start": 0, "steps": [sp * rng.choice([1, 2, 3])], "initpull": False, "nout": 0,
+                      "inputs": [{"src": [0, 0], "chain": ch, "own": True}]})
+    order = list(range(len(comps)))
+    rng.shuffle(order)
+    comps = permute(comps, order)
+    nlinks = sum(len(c["inputs"]) for c in comps)
+    lo = list(range(nlinks))
+    rng.shuffle(lo)
+    maxstep = max(max(c["steps"]) for c in comps)
+    return {"comps": comps, "end": rng.choice([2, 3, 5]) * maxstep, "link_order": lo}
